@@ -179,6 +179,27 @@ func acceptsWithoutAnnBeforeShift(p *ref.Program) bool {
 	for i := range q.Procs {
 		fix(q.Procs[i].Ty)
 	}
+	// annotations of typed cuts
+	var walk func(t *ref.Tm)
+	walk = func(t *ref.Tm) {
+		if t == nil {
+			return
+		}
+		if t.K == ref.TNew {
+			fix(t.Ty)
+		}
+		walk(t.Body)
+		walk(t.Cont)
+		for i := range t.Branches {
+			walk(t.Branches[i].Body)
+		}
+	}
+	for i := range q.Funcs {
+		walk(q.Funcs[i].Body)
+	}
+	for i := range q.Procs {
+		walk(q.Procs[i].Body)
+	}
 	if !changed {
 		return false
 	}
